@@ -253,6 +253,7 @@ class C11RoundTrip(Machine):
     def _readback(self, where):
         P = self.pyrex
         n = len(self.records)
+        self._check_index_table(where)
         reader = P.io.HDF5Reader(self.name_)
         st, _ = self.sut(reader.open, where="reader.open")
         try:
@@ -260,7 +261,6 @@ class C11RoundTrip(Machine):
             if ln != n:
                 raise Violation("C11:event-count",
                                 "%s: file reports %d events, %d adds were accepted" % (where, ln, n))
-            self._check_index_table(reader, where)
             if n == 0 or not any(r["particles"] is not None for r in self.records):
                 return 0
             st, got = self.sut(lambda: [io_common.read_event(ev, self.cfg["n_ant"]) for ev in reader],
@@ -275,22 +275,28 @@ class C11RoundTrip(Machine):
             reader.close()
         return n
 
-    def _check_index_table(self, reader, where):
-        f = reader._file
-        idx = f["/event_indices"]
-        keys = [k if isinstance(k, str) else k.decode() for k in idx.attrs["keys"]]
-        data = idx[...]
-        for col, key in enumerate(keys):
-            if key not in f:
-                continue
-            obj = f[key]
-            rows = obj["float"].shape[0] if hasattr(obj, "keys") else obj.shape[0]
-            for ev in range(data.shape[0]):
-                start, length = int(data[ev, col, 0]), int(data[ev, col, 1])
-                if not (0 <= start and 0 <= length and start + length <= rows):
-                    raise Violation("C11:index-out-of-range",
-                                    "%s: event %d addresses rows [%d,%d) of %s which has %d rows"
-                                    % (where, ev, start, start + length, key, rows))
+    def _check_index_table(self, where):
+        """The stored index table, read straight from the simulated disk (the writer is closed)."""
+        f = seams.SimFile(self.name_, "r")
+        try:
+            if "/event_indices" not in f:
+                return
+            idx = f["/event_indices"]
+            keys = [k if isinstance(k, str) else k.decode() for k in idx.attrs["keys"]]
+            data = idx[...]
+            for col, key in enumerate(keys):
+                if key not in f:
+                    continue
+                obj = f[key]
+                rows = obj["float"].shape[0] if hasattr(obj, "keys") else obj.shape[0]
+                for ev in range(data.shape[0]):
+                    start, length = int(data[ev, col, 0]), int(data[ev, col, 1])
+                    if not (0 <= start and 0 <= length and start + length <= rows):
+                        raise Violation("C11:index-out-of-range",
+                                        "%s: event %d addresses rows [%d,%d) of %s which has %d rows"
+                                        % (where, ev, start, start + length, key, rows))
+        finally:
+            f.close()
 
     def _op_checkpoint(self, op):
         st, _ = self.sut(self.writer.close, where="writer.close")
